@@ -136,6 +136,10 @@ package scale
 //@   model real
 //@   requires 0 < lo && lo < hi && x > 0 && log(lo) < log(hi) && exp(log(x)) == x
 //@   ensures exp(((log(x) - log(lo))/(log(hi) - log(lo)))*(log(hi) - log(lo)) + log(lo)) == x
+//@ lemma log_monotone(lo real, hi real, a real, b real)
+//@   model real
+//@   requires 0 < lo && lo < hi && 0 < a && a < b
+//@   ensures (log(a) - log(lo))/(log(hi) - log(lo)) < (log(b) - log(lo))/(log(hi) - log(lo))
 //@ lemma log_endpoints(lo real, hi real)
 //@   model real
 //@   requires 0 < lo && lo < hi && log(lo) < log(hi)
